@@ -60,7 +60,7 @@ def run(prop, tier, seed, replay):
     from astropy.io import fits
     from yaw import AngularCoordinates, Catalog
 
-    ck = Check(prop, tier, seed, kernels=["k_reader", "k_createplan", "k_wrappers", "k_glue", "k_probe"], theorems=THEOREMS + ["Yaw.Glue.fits_flags", "Yaw.C18Probe.probe_spec", "Yaw.C18Probe.probe_flags", "Yaw.C05.progress_wrapper_flags", "Yaw.C18P.steps_spec", "Yaw.C18P.passes_spec", "Yaw.C18P.reader_forwarding", "Yaw.C18P.mode_args", "Yaw.C18P.writer_forwarding", "Yaw.C18P.glue_pinned"], lean_modules=["YawVerif.Props.C02", "YawVerif.Props.C02Groupby", "YawVerif.Props.C18Plan", "YawVerif.Props.C05", "YawVerif.Props.Glue", "YawVerif.Props.C18Probe"], rule=RULE,
+    ck = Check(prop, tier, seed, kernels=["k_reader", "k_createplan", "k_wrappers", "k_glue", "k_probe"], theorems=THEOREMS + ["Yaw.Glue.fits_flags", "Yaw.Glue.reader_ext_table", "Yaw.C18Probe.probe_spec", "Yaw.C18Probe.probe_flags", "Yaw.C05.progress_wrapper_flags", "Yaw.C18P.steps_spec", "Yaw.C18P.passes_spec", "Yaw.C18P.reader_forwarding", "Yaw.C18P.mode_args", "Yaw.C18P.writer_forwarding", "Yaw.C18P.glue_pinned"], lean_modules=["YawVerif.Props.C02", "YawVerif.Props.C02Groupby", "YawVerif.Props.C18Plan", "YawVerif.Props.C05", "YawVerif.Props.Glue", "YawVerif.Props.C18Probe"], rule=RULE,
                assumptions=["np.argsort/np.unique/np.split group the records of a chunk by patch id (order within a group "
                             "unspecified: multisets are compared)",
                             "multiprocessing.Pool.map delivers every part exactly once",
